@@ -1,7 +1,8 @@
 """Worker for C11: runs the configuration matrix in THIS interpreter (started by the driver as
 `python`, `python -O` and `python -OO`), reading jobs from a JSON file and writing run records."""
 import json, math, sys, warnings
-sys.path.insert(0, '/repo')
+import os
+sys.path.insert(0, os.environ.get('FGGS_REPO', '/repo'))
 sys.path.insert(0, sys.argv[3] if len(sys.argv) > 3 else '/verif')
 import torch
 import fggs
